@@ -9,6 +9,9 @@ EXTRA = {"C01-e": ["C02", "C14"], "C03-e": ["C01"], "C13-e": ["C03", "C01"], "C1
          "revert-2ae8c54": ["C04", "C13"], "revert-e41da29": ["C19"], "revert-a78614b": ["C01", "C03"], "revert-fd379c2": ["C01", "C03"], "revert-10164bf": ["C09"], "revert-80819e0": ["C13"], "revert-8416c89": ["C13"], "revert-2e02a4b": ["C19"], "revert-97e517b": ["C19"],
          "revert-8d7f5ba": ["C19"], "revert-5859cef": ["C01", "C20"], "revert-d9cccf5": ["C03", "C20"], "revert-d624b73": ["C06"],
          "revert-95688b3": ["C19"], "revert-7398e39": ["C10"], "revert-697ea65": ["C04", "C19"], "revert-cc8e982": ["C19"]}
+EXTRA.update({"C01-f": ["C03"], "C01-g": ["C06", "C03"], "C05-f": ["C03"], "C05-g": ["C12", "C01"], "C09-f": [], "C14-f": ["C01", "C02"], "C14-g": ["C03", "C16"],
+  "C03-g": ["C06"], "C07-f": ["C12"], "C11-g": ["C07"], "C15-f": ["C19"], "C15-g": ["C19"], "C20-f": ["C04"], "C20-g": ["C17"], "C04-f": ["C10"], "C04-g": ["C10", "C19"],
+  "C08-f": ["C09"], "C12-f": ["C07"], "C12-g": ["C09"], "C16-f": ["C03", "C01"], "C16-g": ["C03"]})
 only = sys.argv[1:]
 jobs = []
 for d in sorted(os.listdir(V + "/seeded")):
